@@ -66,6 +66,8 @@ func (c *Case) watchdogMs() int {
 		switch s.Op {
 		case "storm":
 			total += 6000 + c.opBoundMs("transition")
+		case "join":
+			total += c.opBoundMs("transition") + 3000
 		case "sleep", "sleep-rel", "await", "await-quiescent":
 			total += s.Ms
 		default:
